@@ -511,6 +511,8 @@ def history(seed, n_ops=25, profile=None):
         return perkey_history(seed, unsound_cutoffs=True)
     if profile == "rhsheights":
         return rhs_heights_history(seed)
+    if profile == "joinexport":
+        return join_export_history(seed)
     if isinstance(profile, str):
         profile = PROFILES[profile]
     rng = random.Random(seed)
@@ -686,6 +688,83 @@ def rhs_heights_history(seed):
         L.append("stabilise")
         if rng.random() < 0.5:
             L.append("read 0")
+    return L
+
+
+def join_export_history(seed):
+    """C01/C03, scripted family: a bind (B) whose right-hand side is a node that another bind's closure (A) created
+    and handed out -- the program holds a handle on the exported node itself (`exporthandle`) and B's closure
+    returns it.  Rounds in which A's left-hand side changes (the exported node is invalidated and a new one is
+    made), B's selector changes, both, or only the data; later handles on the newer exports, binds and maps over
+    them, and B switching back to a node that has been invalidated meanwhile."""
+    rng = random.Random(seed)
+    L = []
+    H = [0]
+
+    def node(line):
+        L.append(line)
+        H[0] += 1
+        return H[0] - 1
+    a_lhs = node(f"var {rng.randrange(3)}")          # var 0
+    data = node(f"var {rng.randrange(1, 6)}")        # var 1
+    sel = node("var 0")                              # var 2
+    other = node(f"var {rng.randrange(1, 6)}")       # var 3
+    fid = rng.choice([1, 2, 8])
+    if rng.random() < 0.5:
+        A = node(f"bind {a_lhs} {{ [] map {fid} [] o{data} ; export l0.0 ; ret l0.0 }}")
+    else:
+        A = node(f"bind {a_lhs} {{ [] map {fid} [] o{data} ; export l0.0 ; map 1 [] l0.0 o{other} ; ret l0.1 }}")
+    nobs = 0
+    L.append(f"observe {A}"); nobs += 1
+    L.append("stabilise")
+    nexp = 1
+    eh = [node("exporthandle 0")]
+    alts = [f"ret t{eh[0]}", f"ret o{other}"]
+    if rng.random() < 0.4:
+        m = node(f"map {rng.choice([0, 1, 2])} [] {eh[0]}")
+        alts.append(f"ret o{m}")
+    rng.shuffle(alts)
+    B = node("bind %d { [] %s }" % (sel, " | ".join(alts)))
+    cons = B
+    for _ in range(rng.choice([0, 1, 1])):
+        cons = node(f"map {rng.choice([0, 1, 2])} [] {cons}")
+    L.append(f"observe {cons}"); nobs += 1
+    if rng.random() < 0.3:
+        L.append(f"observe {eh[0]}"); nobs += 1
+    L.append("stabilise")
+    for o in range(nobs):
+        L.append(f"read {o}")
+    for _ in range(rng.choice([3, 4, 5, 6])):
+        r = rng.random()
+        order = []
+        if r < 0.35:
+            order.append(f"set 0 {rng.randrange(4)}")          # A re-runs
+            order.append(f"set 2 {rng.randrange(len(alts))}")  # B switches in the same round
+            nexp += 1
+        elif r < 0.55:
+            order.append(f"set 0 {rng.randrange(4)}")
+            nexp += 1
+        elif r < 0.75:
+            order.append(f"set 2 {rng.randrange(len(alts))}")
+        else:
+            order.append(f"set {rng.choice([1, 3])} {rng.randrange(1, 7)}")
+        if rng.random() < 0.3:
+            order.append(f"set {rng.choice([1, 3])} {rng.randrange(1, 7)}")
+        rng.shuffle(order)
+        L.extend(order)
+        L.append("stabilise")
+        for o in range(nobs):
+            if rng.random() < 0.7:
+                L.append(f"read {o}")
+        if rng.random() < 0.35:
+            k = rng.randrange(nexp + 1)
+            h = node(f"exporthandle {k}")
+            eh.append(h)
+            if rng.random() < 0.6:
+                B2 = node("bind %d { [] ret t%d | ret o%d }" % (sel, h, data))
+                L.append(f"observe {B2}"); nobs += 1
+            else:
+                L.append(f"observe {h}"); nobs += 1
     return L
 
 
@@ -930,7 +1009,7 @@ def perkey_history(seed, unsound_cutoffs=False):
     inp = node("varmap " + lit(cur))             # var 0
     others = [node(f"var {rng.randrange(10)}") for _ in range(rng.choice([1, 2]))]   # vars 1..
     shared = node(f"map 2 [] {rng.choice(others)}")
-    flavour = rng.choice(["pure", "map2", "bind", "ignore", "ignore", "shared", "chain"])
+    flavour = rng.choice(["pure", "map2", "bind", "ignore", "ignore", "shared", "chain", "condread", "condread"])
     o = rng.choice(others)
     if flavour == "pure":
         f = f"map {rng.choice([2, 9, 8])} [] l1.0 ; ret l0.0"
@@ -942,6 +1021,10 @@ def perkey_history(seed, unsound_cutoffs=False):
         f = rng.choice([f"map 6 [] o{o} ; ret l0.0", "const 5 ; ret l0.0", f"map 8 [] o{shared} ; ret l0.0"])
     elif flavour == "shared":
         f = f"ret o{rng.choice([shared, o])}"
+    elif flavour == "condread":
+        # reads its per-key input only while another variable says so: the per-key node is alive but not needed in between
+        f = rng.choice([f"bind o{o} {{ [] map 2 [] l2.0 ; ret l0.0 | const 7 ; ret l0.0 }} ; ret l0.0",
+                        f"bind o{o} {{ [] const 7 ; ret l0.0 | map 1 [] l2.0 o{shared} ; ret l0.0 | ret l2.0 }} ; ret l0.0"])
     else:
         f = f"map 2 [] l1.0 ; map 1 [] l0.0 o{shared} ; ret l0.1"
     cut = rng.choice(["-", "-", "-", "eq", "never", "fn:0"])
@@ -949,7 +1032,7 @@ def perkey_history(seed, unsound_cutoffs=False):
         # cutoffs that swallow changes between unequal values: the output then legitimately lags behind the input, so
         # these histories are only compared between model and crate
         cut = rng.choice(["fn:1", "fn:2", "boxed:1", "boxed:2", "always"])
-        if flavour in ("ignore", "shared"):
+        if flavour in ("ignore", "shared", "condread"):
             flavour, f = "map2", f"map 1 [] l1.0 o{o} ; ret l0.0"
     op = rng.choice(["permapi", "permapiom", "perfilter", "perfilterom"])
     out = node(f"{op} {inp} {cut} {{ [] {f} }}")
@@ -1090,6 +1173,23 @@ def c19_history(seed):
             for i in range(k):
                 L.append(f"map 2 [] {1 + i}")
             L.append(f"observe {1 + k}")
+        elif rng.random() < 0.35:
+            # a cycle closed through a bind scope: outer's closure creates n and hands it out; a bind that outer's own
+            # left-hand side depends on is then switched to n itself (a program handle on the exported node)
+            L[:] = ["var 0", f"var {rng.randrange(1, 4)}", f"var {rng.randrange(5, 12)}"]
+            L.append("bind 0 { [] ret o1 | ret t6 }")                          # h3 join
+            k = rng.choice([0, 1, 2])
+            L.append("map 2 [] 3")                                              # h4 upstream
+            L.append("bind 4 { [] map 1 [] o2 ; export l0.0 ; ret l0.0 }")      # h5 outer
+            L.append("observe 5")
+            L.append("stabilise")
+            L.append("read 0")
+            L.append("exporthandle 0")                                          # h6 = n
+            L.append("set 0 1")
+            L.append("stabilise")
+            L.append("read 0")
+            L.append("stabilise")
+            return 128, L, "scopecycle", None
         else:
             # two binds: b1 returns a node above b2, b2 returns a node above b1
             L.append("bind 0 { [] ret t4 }")
